@@ -1,6 +1,6 @@
 /- C16 helper lemmas, part 3: counting over the whole table. -/
 import Discv5Model.Proofs.IpFilterBucket
-namespace Discv5.KB
+namespace Discv5.KB.Ip
 
 /-! ## table-level counting -/
 
@@ -264,4 +264,4 @@ theorem TW_val_le_one (keyOf : Val → Nat) (c : Cfg Val) (t : Table Val) (h : T
   have h3 := TW_badKey keyOf t hk
   omega
 
-end Discv5.KB
+end Discv5.KB.Ip
